@@ -14,6 +14,7 @@ import (
 	pb "github.com/marekgalovic/anndb/protobuf"
 	"github.com/marekgalovic/anndb/services"
 	"github.com/marekgalovic/anndb/storage"
+	"github.com/marekgalovic/anndb/storage/raft"
 
 	badger "github.com/dgraph-io/badger/v2"
 	"github.com/golang/protobuf/proto"
@@ -80,6 +81,10 @@ var Lacks func(node uint64) bool
 // the others); nil result = the common placement. Reset by the caller.
 var OwnView func(node uint64) [][]uint64
 
+// WithTransport, when set, gives every node of the next NewDatasetCluster a raft transport object (no group is
+// started): the catalogue entries that change a partition's replica list look at the transport's node id.
+var WithTransport bool
+
 // DNode is one simulated node holding one dataset object.
 type DNode struct {
 	ID   uint64
@@ -116,7 +121,11 @@ func NewDatasetCluster(nNodes int, dim uint32, space pb.Space, placement [][]uin
 				conn.AddNode(uint64(j), Addr(uint64(j)))
 			}
 		}
-		dm := storage.VerifBareDatasetManager(db, nil, conn, nil)
+		var tr *raft.RaftTransport
+		if WithTransport {
+			tr = raft.NewTransport(id, Addr(id), conn)
+		}
+		dm := storage.VerifBareDatasetManager(db, tr, conn, nil)
 		m := proto.Clone(meta).(*pb.Dataset)
 		if OwnView != nil {
 			if own := OwnView(id); own != nil {
@@ -125,7 +134,7 @@ func NewDatasetCluster(nNodes int, dim uint32, space pb.Space, placement [][]uin
 				}
 			}
 		}
-		ds, err := storage.VerifNewDataset(dsid, *m, db, nil, conn, dm)
+		ds, err := storage.VerifNewDataset(dsid, *m, db, tr, conn, dm)
 		if err != nil {
 			panic(err)
 		}
